@@ -99,6 +99,9 @@ func runC12(c *eng.Ctx) {
 				okCnt = true
 			}
 		}
+		if _, all := allReturns(fn, nil, func(rv []ssa.Value) bool { return eng.Bin(token.LSS, id, id)(rv[0]) }, func(rv []ssa.Value) bool { return eng.Bin(token.LSS, cnt, cnt)(rv[0]) }); !all {
+			okCnt = false
+		}
 		c.Check(okCnt, "heap orders by assignment count", p.Pos(fn.Pos()), "c[i].assignedCount < c[j].assignedCount", "consumerHeap.Less does not order by assignedCount")
 		c.Check(okTie, "ties are broken by consumer id", p.Pos(fn.Pos()), "on equal counts: c[i].id < c[j].id", "consumerHeap.Less has no deterministic tie-break on equal counts: the minimum depends on heap layout, so servers assign differently")
 	}
